@@ -1,13 +1,14 @@
 import FastorModel.Driver.Common
 import FastorModel.Model.Footprint
+import FastorModel.Model.Kern3
 /- `pfoot`, `bounds`, `memidx`, `aflag` commands of the driver (C07) -/
 namespace Fastor.Driver
 open Fastor Fastor.Footprint
 
-def lanesToMask (ls : List Nat) : Nat := ls.foldl (fun c l => c ||| (1 <<< l)) 0
+private def lanesToMask (ls : List Nat) : Nat := ls.foldl (fun c l => c ||| (1 <<< l)) 0
 
 /-- mask array encoded as a number: bit `i` set ↔ `maska[i] == -1` -/
-def arrayOfBits (V bits : Nat) : List Int := (List.range V).map fun i => if bits.testBit i then -1 else 0
+private def arrayOfBits (V bits : Nat) : List Int := (List.range V).map fun i => if bits.testBit i then -1 else 0
 
 private def parseInts (s : String) : List Int := (s.splitOn ",").filterMap String.toInt?
 private def parseNats (s : String) : List Nat := (s.splitOn ",").filterMap String.toNat?
@@ -34,7 +35,7 @@ def runPfoot (kv : List (String × String)) : String := Id.run do
   let lo := ls.foldl (fun m l => min m l) V
   return s!"LANES={lanesToMask ls} LO={lo} HI={hi} CNT={ls.length}"
 
-def resStr : Res → String
+private def resStr : Res → String
   | .err => "err"
   | .ok f => toString f
 
@@ -63,5 +64,42 @@ def runAflag (kv : List (String × String)) : String := Id.run do
   let acc := assignStores n V flag ++ flaggedLoads n V flag
   let na := (acc.filter (·.aligned)).length
   return s!"FLAG={if flag then 1 else 0} NAL={na}"
+
+end Fastor.Driver
+
+namespace Fastor.Driver
+open Fastor Fastor.Footprint Fastor.Kern3
+
+private def hull (ls : List Nat) : Nat × Nat := (ls.foldl (fun m l => min m l) 1000000, ls.foldl (fun m l => max m (l + 1)) 0)
+
+/-- `kern3 k=<kernel> branch=.. avx2=0|1 K=..`: per operand the lowest offset and highest offset + 1 touched, and the set of
+    result elements written -/
+def runKern3 (kv : List (String × String)) : String := Id.run do
+  let some name := getS kv "k" | return "bad-op"
+  let br : Branch := match getS kv "branch" with
+    | some "avx512" => .avx512 | some "avx" => .avx | _ => .sse
+  let avx2 := (getN kv "avx2").getD 0 != 0
+  let K := (getN kv "K").getD 3
+  let k : Option (List KAcc) := match name with
+    | "transpose33" => some (transpose33 br avx2)
+    | "matmul3K3" => some (matmul3K3 br K)
+    | "matmul333" => some (matmul333 br)
+    | "matvec331" => some (matvec331 br)
+    | "norm9f" => some norm9f | "norm9d" => some norm9d
+    | "trace33f" => some trace33f | "trace33d" => some trace33d
+    | "det33" => some det33
+    | "dc33f" => some dc33f | "dc33d" => some dc33d
+    | "transpose33d" => some (transpose33d (if br == .avx512 then 8 else if br == .avx then 4 else 2))
+    | "unary4f" => some unary4f | "unary4d" => some unary4d
+    | "transpose44f" => some (transpose44f (br == .avx512))
+    | "dyadic33f" => some (dyadic33f br) | "dyadic33d" => some (dyadic33d br) | "dyadic22f" => some dyadic22f
+    | "matmul222f" => some matmul222f | "matmul444f" => some matmul444f
+    | _ => none
+  let some k := k | return "bad-op"
+  let (alo, ahi) := hull (offsets k 0 false)
+  let (blo, bhi) := hull (offsets k 1 false)
+  let (olo, ohi) := hull (offsets k 2 true)
+  let wr := lanesToMask (offsets k 2 true)
+  return s!"ALO={alo} AHI={ahi} BLO={blo} BHI={bhi} OLO={olo} OHI={ohi} WR={wr}"
 
 end Fastor.Driver
